@@ -2,7 +2,7 @@
 (* Exhaustive model of one SimplicialComplex object; see MC_HG for the scheme. *)
 EXTENDS SC, Json
 
-CONSTANTS NN, EdgeIds, MaxUid, MaxEdges, MaxAttr, MaxLevel, Rich, Emit
+CONSTANTS NN, EdgeIds, MaxUid, MaxEdges, MaxAttr, MaxLevel, Rich, WithFreeze, Emit
 SX == INSTANCE SequencesExt
 VARIABLES st, last
 vars == <<st, last>>
@@ -54,7 +54,8 @@ Alphabet ==
   \cup {[O("add_edges_from") EXCEPT !.fmt = 1, !.items = <<Item(All, None, A0)>>, !.n2 = 0]}
   \cup {[O("remove_edge") EXCEPT !.e = e] : e \in {0, 1}}
   \cup {[O("remove_edges_from") EXCEPT !.ns = <<1, 0>>]}
-  \cup (IF Rich THEN {[O("set_net_attr") EXCEPT !.k = 1, !.v = <<0, 1>>], O("freeze")} ELSE {})
+  \cup (IF Rich THEN {[O("set_net_attr") EXCEPT !.k = 1, !.v = <<0, 1>>]} ELSE {})
+  \cup (IF Rich \/ WithFreeze THEN {O("freeze")} ELSE {})
 
 Pairs == {X \in SUBSET Nodes : Cardinality(X) = 2}
 Triples == {X \in SUBSET Nodes : Cardinality(X) = 3 /\ NN > 3}
